@@ -28,7 +28,7 @@ RULE = ("one case = EigenSolve configuration (dense/sparse, standard/generalised
         "changed matrices (cached shift-invert solver / flags reused) or a sparse solve (start-vector injection fired)")
 PROBES = ["sigma_inside_spectrum", "singular_B_on_constrained_dofs", "solver_reuse_3_matrices", "custom_sorting", "complex_hermitian",
           "general_complex_spectrum", "adjoint_cycle_between_responses", "sparse_eigvec_seed", "two_instances_interleaved",
-          "closest_to_sigma_compared", "dense_full_spectrum_compared", "exact_zero_mean_eigenvector", "nonsymmetric_positive_definite_B"]
+          "closest_to_sigma_compared", "dense_full_spectrum_compared", "exact_zero_mean_eigenvector", "nonsymmetric_positive_definite_B", "default_nmodes"]
 FAULT_KINDS = ["arpack_start_vector_varied"]
 COMPONENTS = {"real": ["pymoto.EigenSolve", "pymoto.solvers.auto_determine_solver / SolverSparseLU (shift-invert)",
                        "pymoto.AssembleStiffness / AssembleMass (FE pencils)", "scipy ARPACK (eigsh/eigs), LAPACK (eigh/eig)"],
@@ -143,7 +143,10 @@ class Inst:
         self.nresp = 0
         self.sigma = None
         if self.sparse:
-            kw["nmodes"] = case["nmodes"]
+            if case["nmodes"] == 4 and (case["storage"] == "fe" or case["n"] >= 12):
+                self.default_nmodes = True          # leave nmodes to its default (6)
+            else:
+                kw["nmodes"] = case["nmodes"]
             self.sigma_kind = case["sigma"]
         self.kw = kw
         self.mod = None
@@ -313,7 +316,9 @@ def run(case):
             probe("complex_hermitian")
         if I.B is not None and not I.sparse and not np.allclose(Bd, Bd.conj().T):
             probe("nonsymmetric_positive_definite_B")
-        exp_k = n if not I.sparse else case["nmodes"]
+        exp_k = n if not I.sparse else (6 if getattr(I, "default_nmodes", False) else case["nmodes"])
+        if getattr(I, "default_nmodes", False):
+            probe("default_nmodes")
         if Q.ndim != 2 or Q.shape != (n, k) or k != exp_k:
             viol("shape", f"returned {k} values and Q of shape {Q.shape}; expected {exp_k} pairs of dimension {n}", at)
             break
